@@ -65,7 +65,7 @@ def main():
             cat = cat or oracle.CATEGORY.get(rec['detector'], 'opt')
             pa, pb = n.file(rec['source']), n.file(rec['other_source'])
             alone = n.run([['analyze', cat, rec['detector'], pa]])[0]
-            seq = n.run([['analyze', cat, rec['detector'], pb], ['analyze', cat, rec['detector'], pa]])[1]
+            seq = n.run([(['bigstack', 'analyze_raw'] if rec.get('raw') else ['analyze']) + [cat, rec['detector'], pb], ['analyze', cat, rec['detector'], pa]])[1]
             print('analysed alone -> %s ; analysed after the other file in the same process -> %s' % (alone, seq))
             same = alone != seq
         elif job == 'threads':
